@@ -279,11 +279,22 @@ func (g *gen) heapVar(st *state, name, sort string) string {
 		pv := g.heapVar(ep.parents[0].st, name, sort)
 		if isArr {
 			switch k := ep.keep(name, "r"); k {
+			case "weak":
+				// only objects allocated since the parent state may differ: the parent's array is reused
+				// (its values at not-yet-allocated references are unconstrained)
+				st.heap[name] = pv
+				if ep.top != "" {
+					g.wellFormed(name, pv, ep.top)
+				}
+				return pv
 			case "true":
 				g.assert(sEq(v, pv))
 			case "false":
 			default:
 				g.assert(fmt.Sprintf("(forall ((r Int)) (! (=> %s (= (select %s r) (select %s r))) :pattern ((select %s r))))", k, v, pv, v))
+			}
+			if ep.top != "" {
+				g.wellFormed(name, v, ep.top)
 			}
 		} else if ep.keep(name, "") == "true" {
 			g.assert(sEq(v, pv))
@@ -297,14 +308,22 @@ func (g *gen) heapVar(st *state, name, sort string) string {
 }
 
 // entryWellFormed: everything stored in the heap at function entry was allocated before entry.
-func (g *gen) entryWellFormed(name, v string) {
+func (g *gen) entryWellFormed(name, v string) { g.wellFormed(name, v, "top0") }
+
+// wellFormed: pointers stored in objects allocated up to `top` point to objects allocated up to `top`.
+func (g *gen) wellFormed(name, v, top string) {
+	key := "wf:" + v + ":" + top
+	if g.declared[key] {
+		return
+	}
+	g.declared[key] = true
 	switch g.heapKinds[name] {
 	case "ptr":
-		g.assert(fmt.Sprintf("(forall ((r Int)) (! (and (<= 0 (select %s r)) (<= (select %s r) top0)) :pattern ((select %s r))))", v, v, v))
+		g.assert(fmt.Sprintf("(forall ((r Int)) (! (=> (<= r %s) (and (<= 0 (select %s r)) (<= (select %s r) %s))) :pattern ((select %s r))))", top, v, v, top, v))
 	case "slice":
-		g.assert(fmt.Sprintf("(forall ((r Int)) (! (and (<= 0 (s.base (select %s r))) (<= (s.base (select %s r)) top0) (<= 0 (s.len (select %s r))) (<= 0 (s.off (select %s r)))) :pattern ((select %s r))))", v, v, v, v, v))
+		g.assert(fmt.Sprintf("(forall ((r Int)) (! (=> (<= r %s) (and (<= 0 (s.base (select %s r))) (<= (s.base (select %s r)) %s) (<= 0 (s.len (select %s r))) (<= 0 (s.off (select %s r))))) :pattern ((select %s r))))", top, v, v, top, v, v, v))
 	case "ptrElems":
-		g.assert(fmt.Sprintf("(forall ((r Int) (i Int)) (! (and (<= 0 (select (select %s r) i)) (<= (select (select %s r) i) top0)) :pattern ((select (select %s r) i))))", v, v, v))
+		g.assert(fmt.Sprintf("(forall ((r Int) (i Int)) (! (=> (<= r %s) (and (<= 0 (select (select %s r) i)) (<= (select (select %s r) i) %s))) :pattern ((select (select %s r) i))))", top, v, v, top, v))
 	}
 }
 
@@ -324,6 +343,7 @@ func ptrKind(t types.Type, elems bool) string {
 }
 
 type epochInfo struct {
+	top     string // allocation mark when the epoch started
 	parents []parentLink
 	keep    func(name, r string) string // nil for merge epochs
 }
@@ -338,12 +358,31 @@ func (g *gen) newEpoch(st *state, keep func(name, r string) string, allocates bo
 	pre := st.clone()
 	e := g.fresh("e")
 	g.epochs[e] = &epochInfo{parents: []parentLink{{pre, "true"}}, keep: keep}
-	st.heap = map[string]string{}
+	nh := map[string]string{}
+	for name, v := range st.heap {
+		srt := g.heapSorts[name]
+		if strings.HasPrefix(srt, "(Array Int") {
+			if k := keep(name, "r"); k == "weak" || k == "true" {
+				nh[name] = v
+			}
+		} else if keep(name, "") == "true" {
+			nh[name] = v
+		}
+	}
+	st.heap = nh
 	st.epoch = e
 	if allocates {
 		nt := g.newConst("top", "Int")
 		g.assert(app(">=", nt, pre.top))
 		st.top = nt
+	}
+	g.epochs[e].top = st.top
+	if allocates {
+		for name, v := range st.heap {
+			if g.heapKinds[name] != "" {
+				g.wellFormed(name, v, st.top)
+			}
+		}
 	}
 	return pre
 }
@@ -629,10 +668,27 @@ func (g *gen) analyseLoops() []*ssa.BasicBlock {
 	for h := range g.loops {
 		hs = append(hs, h)
 	}
+	bodyPos := func(h *ssa.BasicBlock) token.Pos {
+		best := token.NoPos
+		for b := range g.loops[h].body {
+			for _, in := range b.Instrs {
+				if _, isD := in.(*ssa.DebugRef); isD {
+					continue
+				}
+				if p := in.Pos(); p.IsValid() && (best == token.NoPos || p < best) {
+					best = p
+				}
+			}
+		}
+		return best
+	}
 	sort.Slice(hs, func(i, j int) bool {
-		pi, pj := loopPos(hs[i]), loopPos(hs[j])
+		pi, pj := bodyPos(hs[i]), bodyPos(hs[j])
 		if pi != pj {
 			return pi < pj
+		}
+		if li, lj := len(g.loops[hs[i]].body), len(g.loops[hs[j]].body); li != lj {
+			return li > lj
 		}
 		return hs[i].Index < hs[j].Index
 	})
@@ -816,6 +872,10 @@ func (g *gen) assumeAllocated(st *state, t string, ty types.Type) {
 	switch ty.Underlying().(type) {
 	case *types.Pointer, *types.Map:
 		g.assume(sAnd(app(">=", t, "0"), app("<=", t, st.top)))
+	case *types.Basic:
+		if isString(ty) {
+			g.assume(app("<=", app("str.len", t), "72057594037927936"))
+		}
 	case *types.Slice:
 		b, o, l := g.sliceParts(t)
 		g.assume(sAnd(app(">=", b, "0"), app("<=", b, st.top), app(">=", l, "0"), app("<=", l, "72057594037927936"), app(">=", o, "0"), app("<=", o, "72057594037927936"),
@@ -895,11 +955,12 @@ func (g *gen) entryState(b *ssa.BasicBlock, fallback *state) (*state, string) {
 			}
 			continue
 		}
-		c := g.newConst(k+"@m", srt)
-		for _, i := range ins {
-			g.assert(sImp(i.c, sEq(c, g.heapVar(i.st, k, srt))))
+		// nested ite over the incoming edges (the last one is the default)
+		t := g.heapVar(ins[len(ins)-1].st, k, srt)
+		for x := len(ins) - 2; x >= 0; x-- {
+			t = sIte(ins[x].c, g.heapVar(ins[x].st, k, srt), t)
 		}
-		m.heap[k] = c
+		m.heap[k] = g.define(k+"@m", srt, t)
 	}
 	// cells
 	cellKeys := map[*ssa.Alloc]bool{}
@@ -920,11 +981,11 @@ func (g *gen) entryState(b *ssa.BasicBlock, fallback *state) (*state, string) {
 			m.cells[a] = first
 			continue
 		}
-		c := g.newConst("cell."+sanitize(a.Comment)+"@m", g.sorts.sortOf(deref(a.Type())))
-		for _, i := range ins {
-			g.assert(sImp(i.c, sEq(c, g.cellValue(i.st, a))))
+		t := g.cellValue(ins[len(ins)-1].st, a)
+		for x := len(ins) - 2; x >= 0; x-- {
+			t = sIte(ins[x].c, g.cellValue(ins[x].st, a), t)
 		}
-		m.cells[a] = c
+		m.cells[a] = g.define("cell."+sanitize(a.Comment)+"@m", g.sorts.sortOf(deref(a.Type())), t)
 	}
 	// top
 	first := ins[0].st.top
@@ -937,11 +998,11 @@ func (g *gen) entryState(b *ssa.BasicBlock, fallback *state) (*state, string) {
 	if same {
 		m.top = first
 	} else {
-		c := g.newConst("top@m", "Int")
-		for _, i := range ins {
-			g.assert(sImp(i.c, sEq(c, i.st.top)))
+		t := ins[len(ins)-1].st.top
+		for x := len(ins) - 2; x >= 0; x-- {
+			t = sIte(ins[x].c, ins[x].st.top, t)
 		}
-		m.top = c
+		m.top = g.define("top@m", "Int", t)
 	}
 	return m, guard
 }
@@ -984,13 +1045,23 @@ func (g *gen) execBlock(b *ssa.BasicBlock, initial *state) {
 	}
 	if li == nil {
 		for _, p := range phis {
+			var vals, conds []string
 			for i, e := range p.Edges {
 				pred := b.Preds[i]
 				if g.exit[pred] == nil {
 					continue
 				}
-				g.assert(sImp(g.edge[[2]*ssa.BasicBlock{pred, b}], sEq(g.vals[p], g.val(g.exit[pred], e))))
+				vals = append(vals, g.val(g.exit[pred], e))
+				conds = append(conds, g.edge[[2]*ssa.BasicBlock{pred, b}])
 			}
+			if len(vals) == 0 {
+				continue
+			}
+			t := vals[len(vals)-1]
+			for x := len(vals) - 2; x >= 0; x-- {
+				t = sIte(conds[x], vals[x], t)
+			}
+			g.assert(sEq(g.vals[p], t))
 		}
 	} else {
 		g.enterLoop(li, b, st, phis)
